@@ -26,9 +26,23 @@ type verifCase struct {
 	Events [][]int64 `json:"events"`
 }
 
-type verifSource struct{ next int64 }
+type verifSource struct {
+	next, last int64
+	calls      int
+}
 
-func (s *verifSource) Int63() int64    { return s.next << 10 }
+// Int63 returns the scripted draw; after 2^20 identical calls in a row it answers 0 so that a
+// rejection-sampling loop (rand.Int63n on a constant source) cannot spin forever.
+func (s *verifSource) Int63() int64 {
+	if s.next != s.last {
+		s.last, s.calls = s.next, 0
+	}
+	s.calls++
+	if s.calls > 1<<20 {
+		return 0
+	}
+	return s.next << 10
+}
 func (s *verifSource) Seed(seed int64) {}
 
 var (
